@@ -18,10 +18,10 @@ RULE = ("Hypothesis-generated histories (<=20 ops) with Dynamic.time_dependent o
         "Fractions after switching time_type), +=/-=, reads, double reads, inspect_value, nested `with time:` blocks with "
         "jumps inside, state push/pop pairs (incl. producing a value with the same time stamp before the pop), int / Fraction / float clocks, "
         "over 2 classes x 2 instances holding generators (UniformRandom, NormalRandom, UniformRandomInt, Choice, ScaledTime, "
-        "ExponentialDecay, SquareWave, TimeSampledFn, history-dependent random streams - one value per time - and arithmetic "
+        "ExponentialDecay, SquareWave, TimeSampledFn, Choice over plain objects (identity), history-dependent random streams - one value per time - and arithmetic "
         "compositions; one instance may follow a generator assigned on the class after it got its own Parameter objects) drawn from small "
         "(name, seed) pools so that equal generators sit on different instances; oracle = first-value table keyed by "
-        "(generator identity, time). Non-trivial = some (generator, time) is read at least twice with a different time "
+        "(generator identity, time); a bounded Number raises for out-of-bounds values at every read at that time. Non-trivial = some (generator, time) is read at least twice with a different time "
         "visited in between, or a context/push-pop encloses a jump; distinct = case hash.")
 ASSUMPTIONS = [
     "generator identity is (kind, constructor parameters, name, seed); random generators are created with time_dependent=True",
@@ -32,7 +32,7 @@ SIZES = {"quick": 1000, "thorough": 6000}
 
 NAMESP = ["g0", "g1"]
 SEEDS = [1, 2]
-KINDS = ["uniform", "normal", "randint", "choice", "scaled", "decay", "square", "stream", "sampled"]
+KINDS = ["uniform", "normal", "randint", "choice", "scaled", "decay", "square", "stream", "sampled", "choice_obj"]
 
 
 def _leaf_gen():
@@ -41,9 +41,10 @@ def _leaf_gen():
 
 
 def _gen_spec():
-    leaf = _leaf_gen()
+    leaf = _leaf_gen().filter(lambda sp: sp[0] != "choice_obj")
+    any_leaf = _leaf_gen()
     return st.one_of(
-        leaf, leaf, leaf,
+        any_leaf, any_leaf, leaf,
         st.tuples(st.just("add"), leaf, leaf).map(list),
         st.tuples(st.just("mulc"), leaf, st.integers(2, 3)).map(list),
         st.tuples(st.just("neg"), leaf).map(list),
@@ -89,6 +90,14 @@ def _case(draw):
         gens[4] = gens[0]
         gens[3] = gens[7] = gens[1]
     ops = draw(st.lists(_ops(), min_size=2, max_size=20))
+    if draw(st.integers(0, 3)) == 0:
+        # a generator that often leaves the hard bounds of the Number it sits behind (inst2.n1), read twice at each time
+        gens[5] = ["randint", draw(st.integers(0, 1)), draw(st.integers(0, 1)), draw(st.integers(0, 2))]
+        at = draw(st.integers(0, len(ops)))
+        motif = []
+        for tt in draw(st.lists(st.integers(-3, 8), min_size=3, max_size=5, unique=True)):
+            motif += [["jump", tt], ["read2", 2, 1]]
+        ops[at:at] = motif
     # the very same generator object may also sit behind a second parameter, alone or inside `g + c`
     share = draw(st.one_of(st.none(), st.tuples(st.integers(0, 7), st.integers(0, 7), st.sampled_from([0, 0, 10]))))
     return {"gens": gens, "time_mode": draw(st.sampled_from(["int", "fraction", "float"])), "ops": ops,
@@ -120,6 +129,9 @@ def _build(spec):
             return ng.ExponentialDecay(starting_value=2.0 + v, time_constant=5.0)
         if k == "square":
             return ng.SquareWave(onset=0.0, duration=1.0 + v, off_duration=2.0)
+        if k == "choice_obj":
+            # values that are compared by identity (plain objects)
+            return ng.Choice(name=name, seed=seed, choices=_TOKENS[v:] + _TOKENS[:v], time_dependent=True)
         if k == "stream":
             # a plain random stream: its values depend on how often it was called; Dynamic caches one value per time
             return ng.UniformRandom(name=name, seed=seed + 10 * v)
@@ -137,6 +149,34 @@ def _build(spec):
     if k == "raddc":
         return spec[2] + _build(spec[1])
     raise ValueError(spec)
+
+
+class _Out:
+    def __repr__(self):
+        return "<raises ValueError: out of bounds>"
+
+
+_OUT = _Out()
+
+
+def _acceptable(kind, v):
+    """would a parameter of this kind ('dyn': anything, 'num': numbers, 'bnum': numbers within (-1.5, 60)) return v"""
+    if kind == "dyn":
+        return True
+    if isinstance(v, bool) or not isinstance(v, (int, float)):
+        return False
+    return kind == "num" or -1.5 <= v <= 60
+
+
+class _Token:
+    def __init__(self, k):
+        self.k = k
+
+    def __repr__(self):
+        return f"<token {self.k}>"
+
+
+_TOKENS = [_Token(i) for i in range(7)]
 
 
 def _ident(spec):
@@ -170,7 +210,8 @@ def execute(case):
 
 def _run(case, res, tf):
     P = type("P", (param.Parameterized,), {"n0": param.Number(default=0.0), "n1": param.Dynamic(default=0)})
-    Q = type("Q", (param.Parameterized,), {"n0": param.Number(default=0.0), "n1": param.Number(default=0.0)})
+    # Q.n1 has hard bounds: a generated value outside them makes the read raise ValueError - at every read at that time
+    Q = type("Q", (param.Parameterized,), {"n0": param.Dynamic(default=0.0), "n1": param.Number(default=0.0, bounds=(-1.5, 60))})
     specs = case["gens"]
     insts = []
     gens = [_build(sp) for sp in specs]
@@ -178,6 +219,8 @@ def _run(case, res, tf):
     share = case.get("share")
     if share and share[0] != share[1]:
         src, dst, c = share
+        if specs[src][0] == "choice_obj":
+            c = 0                  # objects cannot be added to: the generator is shared as it is
         gens[dst] = gens[src] if c == 0 else gens[src] + c
         idents[dst] = idents[src] if c == 0 or idents[src] is None else ("shared_plus", c, idents[src])
         res.label("shared_generator_object")
@@ -192,6 +235,7 @@ def _run(case, res, tf):
         else:
             insts.append(cls(n0=gens[2 * i], n1=gens[2 * i + 1]))
     table = {}
+    raised = {}        # (generator identity, time) -> kinds of parameter on which a read at that time raised
     visits = {}        # key -> list of global read counters
     last_val = {}      # generator object -> last produced value
     last_time = {}     # generator object -> time of the last production
@@ -211,7 +255,11 @@ def _run(case, res, tf):
         t = now()
         first_at_minus1 = (slot not in ever_read) and t == -1
         raw = tf()
-        v = getattr(insts[i], name)
+        try:
+            v = getattr(insts[i], name)
+        except ValueError:
+            v = _OUT                  # the generated number is outside the hard bounds of this Number
+            res.label("generated_value_out_of_bounds")
         if tf() != raw or type(tf()) is not type(raw):
             res.fail("C19.read_moves_time", f"reading inst{i}.{name} at time {raw!r} left the clock at {tf()!r}")
             tf(raw)
@@ -232,6 +280,21 @@ def _run(case, res, tf):
         mark = "[first-read-at-minus-one] " if first_at_minus1 else ""
         if first_at_minus1:
             res.label("first_read_at_minus_one")
+        sk = ("num" if pn == 0 else "dyn") if i < 2 else ("dyn" if pn == 0 else "bnum")
+        if v is _OUT:
+            # the read raised: the value of this generator at this time is not acceptable for this parameter - every time
+            if key in table and _acceptable(sk, table[key]):
+                res.fail("C19.not_a_function_of_time", f"generator {idents[slot]} at time {t}: reading inst{i}.{name} raised, but its "
+                                                      f"value at that time is {table[key]!r}, which this parameter accepts")
+            raised.setdefault(key, set()).add(sk)
+            last_val.pop(lk(i, pn), None)
+            last_time[lk(i, pn)] = t
+            st_["times_seen"].append(t)
+            return v
+        for sk2 in raised.get(key, ()):
+            if _acceptable(sk2, v):
+                res.fail("C19.not_a_function_of_time", f"generator {idents[slot]} at time {t}: inst{i}.{name} yields {v!r} now, but a read "
+                                                      f"at this very time raised earlier on a parameter that accepts such a value")
         if key in table:
             if table[key] != v or type(table[key]) is not type(v):
                 res.fail("C19.not_a_function_of_time", f"{mark}generator {idents[slot]} at time {t}: read {v!r} on inst{i}.{name}, "
@@ -254,7 +317,7 @@ def _run(case, res, tf):
             ok = (idents[other], t)
             if ok in table:
                 a, b = (table[key], table[ok]) if slot == share[0] else (table[ok], table[key])
-                if b != a + share[2]:
+                if isinstance(a, (int, float)) and isinstance(b, (int, float)) and b != a + share[2]:
                     res.fail("C19.shared_generator_disagrees", f"one generator object behind two parameters at time {t}: "
                                                                f"{a!r} and {b!r} (expected second == first + {share[2]})")
         return v
